@@ -130,6 +130,15 @@ def runP {μ : Type} (rc : RCfg μ) : RSt → List REv → RSt × List (ROut μ)
     let r' := runP rc r.1 es
     (r'.1, r.2 ++ r'.2)
 
+/-- a new connection on a used object: fresh reader state, no per-request streams -/
+def enterP (_prev : RSt) : RSt := ⟨enter _prev.st, []⟩
+
+def runSessionsP {μ : Type} (rc : RCfg μ) : RSt → List (List REv) → List (RSt × List (ROut μ))
+  | _, [] => []
+  | prev, evs :: rest =>
+    let r := runP rc (enterP prev) evs
+    r :: runSessionsP rc r.1 rest
+
 /-! ## Observables -/
 
 def mainOf {μ : Type} : List (ROut μ) → List μ
